@@ -1,24 +1,29 @@
 """Per-property claim texts for MANIFEST.json."""
+E3 = (' In the other direction (E3) seeded random drivers run long histories on the real keepers, record every message with result, response and full projected state, '
+      'and TLC checks each recorded step against the same Step function and evaluates the property on every recorded transition.')
 COMMON_NOTE = ('Exhaustive only within the bounded constants of the MC_* family (DESIGN.md 7); the harness fixture (IAVL multistore, real auth/bank/ophost/opchild '
                'keepers, MsgServiceRouter, per-message store branch) stands in for baseapp; TLC, the Go toolchain, SHA3/SHA256 and the SDK bank/auth keepers are trusted.')
 CLAIMS = {
     'C01': dict(text='The L1Host specification (guards/effects of every ophost handler) satisfies per-step escrow conservation, only-withdrawal-debits, per-bridge isolation and '
                      'bystander frame conditions on every transition of the bounded ledger model (TLC, exhaustive), and every one of those transitions - deposits to existing and '
                      'non-existing bridge ids, claims, plain sends to escrow addresses, fee changes, genesis round trips - is executed on the real keeper and its full projected '
-                     'state (all tracked balances, stray balances, every collection) compared with the specification.', note=COMMON_NOTE),
+                     'state (all tracked balances, stray balances, every collection) compared with the specification.' + E3, note=COMMON_NOTE),
     'C02': dict(text='Bounded model with overlapping trees (the same leaf committed by three outputs, re-proposal after deletion): TLC checks that a claim succeeds only if the leaf '
                      'was unclaimed and marks it claimed; every transition incl. every re-submission is replayed on the real keeper; Claimed is read through the gRPC query and '
-                     'cross-checked against the raw store.', note=COMMON_NOTE),
+                     'cross-checked against the raw store.' + E3, note=COMMON_NOTE),
     'C03': dict(text='The perturbation alphabet (each leaf field, sender/recipient swap, other bridge id, version byte, block hash, other tree/position/output index, proof bit flip, '
                      'dropped/duplicated/extended/short proof element) is enumerated in TLA+; whether a perturbed claim verifies is decided by an independent implementation of the '
-                     'formats, and every perturbed claim is submitted to the real keeper: acceptance must coincide with rootMatches/proofOK/notClaimed of the specification.', note=COMMON_NOTE + ' SHA3 collision resistance.'),
+                     'formats, and every perturbed claim is submitted to the real keeper: acceptance must coincide with rootMatches/proofOK/notClaimed of the specification.' + E3, note=COMMON_NOTE + ' SHA3 collision resistance.'),
     'C05': dict(text='Bounded model over periods {-4..3}, block times advancing by 0/1/2 half-second ticks, all interleavings of propose/delete/re-propose/finalize: TLC checks '
                      'WindowHonoured, PositivePeriod, FinalIrreversible, FinalPrefix, LastFinalQuery, DeletableUntilFinal; every transition (incl. exactly-at / one-tick-around boundary '
-                     'instants) is replayed on the real keeper with real block headers.', note=COMMON_NOTE),
+                     'instants) is replayed on the real keeper with real block headers. A second family (window) runs periods and block times at a scale of 2^33 ns per tick so that nanosecond-truncating or seconds-rounding '
+                     'comparisons differ from the exact one; the order-theoretic core (FinalStays, FinalPrefix, L2Increasing, TimeMonotone) is additionally discharged as an inductive invariant over unbounded integers by Apalache '
+                     '(OutputOracleInd.tla, logs up to 4 outputs).' + E3, note=COMMON_NOTE),
     'C10': dict(text='Ledger model over bridge ids {1,2,3} (3 never created): per-bridge gap-free sequences, deposits only to existing bridges, new bridge starts clean, event fields '
-                     'parsed from the real emitted event equal the request, token pair = independent derivation and immutable; all transitions replayed on the real keeper.', note=COMMON_NOTE),
+                     'parsed from the real emitted event equal the request, token pair = independent derivation and immutable; all transitions replayed on the real keeper.' + E3, note=COMMON_NOTE),
     'C11': dict(text='Contiguous / L2Increasing / TimeMonotone invariants and ProposeRule / DeleteRule action properties hold on the bounded oracle model; every propose/delete with '
-                     'indices 0..3 and block numbers 1..3 in every reachable log state is replayed on the real keeper and the stored outputs (root, L2 block, L1 height, L1 time) compared.', note=COMMON_NOTE),
+                     'indices 0..3 and block numbers 1..3 in every reachable log state is replayed on the real keeper and the stored outputs (root, L2 block, L1 height, L1 time) compared, also through the paginated gRPC queries (OutputProposals with every offset/limit/reverse, LastFinalizedOutput, NextL1Sequence). '
+                     'The log-shape invariants are also proved inductive over unbounded integers by Apalache (OutputOracleInd.tla).' + E3, note=COMMON_NOTE),
     'C18': dict(text='Replicas.tla states determinism as agreement of K replicas applying one log (checked by TLC, and shown to fail for a deliberately non-deterministic Apply in the selftest). '
                      'Histories are behaviours of the other specifications: random paths through the transition graphs TLC emits for the validator-set, plan, oracle, L2 deposit and L1 families '
                      '(multi-removal blocks, plans over several validators, oracle aggregation, genesis round trips); each path runs on 4 (quick) / 8 (thorough) fresh instances, every log position '
@@ -27,49 +32,52 @@ CLAIMS = {
                 note='Non-determinism is only seen if it manifests in the K runs (Go randomises map iteration per range loop, so a 3-element map order differs between two runs with probability 5/6). Fresh instances share one process.'),
     'C19': dict(text='Bounded model over metadata classes (valid list, repeated channel, unknown field, differently-cased key, non-JSON, wrong type) x channel states (missing, fresh, in use, '
                      'taken) x challengers: GrantOnlyIf, ChallengerHandsOver and the admin frame condition hold; every transition runs through MsgCreateBridge/MsgUpdateMetadata/'
-                     'MsgUpdateChallenger with the real hook.BridgeHook wired to an in-store channel/perm keeper.', note=COMMON_NOTE + ' The IBC channel and perm keepers are harness implementations of the hook interfaces (the real ones are not in this repository).'),
+                     'MsgUpdateChallenger with the real hook.BridgeHook wired to an in-store channel/perm keeper.' + E3, note=COMMON_NOTE + ' The IBC channel and perm keepers are harness implementations of the hook interfaces (the real ones are not in this repository).'),
 }
 CLAIMS.update({
     'C04': dict(text='Bridge.tla composes both chains with a faithful executor, a proposer that builds the tree with the published rule (Formats), a challenger and claimants; Completeness '
                      '(every recorded withdrawal with a valid recipient that a final output covers is accepted when claimed, user withdrawals and refunds of failed deposits alike) and '
                      'NoStuckTransfer (neither chain records a transfer above the 64-bit cap: amounts of exactly 2^64 are offered to both entry points) are TLC invariants, and every transition '
                      'runs on the two real chains. The trees family proposes a tree of every size 1..8 (16 thorough) and claims every leaf position through the real handler with proofs built '
-                     'by the independent implementation of the tree rule.', note=COMMON_NOTE + ' Amounts are abstract units at scale 2^62 (3 units fit 64 bits, 4 units = 2^64).'),
+                     'by the independent implementation of the tree rule; recipients written in upper-case bech32 (a different string for the same account) are among the leaves. E3: seeded histories of the two real chains with the '
+                     'off-chain roles (Trace_Bridge.tla) check Completeness and NoStuckTransfer on every recorded state and end with a canonical drain schedule after which every claimable withdrawal must have been paid.', note=COMMON_NOTE + ' Amounts are abstract units at scale 2^62 (3 units fit 64 bits, 4 units = 2^64).'),
     'C08': dict(text='Solvency (escrow = L2 supply + deposits not yet finalized on L2 + withdrawals not yet paid on L1, per denom), Holdings (users\' combined holdings + value in flight constant) '
                      'and DrainedOK are TLC invariants of the composed model over deposits (credited and refunded), L2 transfers, withdrawals, relays incl. duplicates and unauthorised relayers, '
                      'proposals, a challenge with re-proposal, time advances and claims in any order; every transition is executed on the two real chains in one process, the deposit / withdrawal '
-                     'logs being rebuilt from the events the real chains emit, and the full projected state of both chains compared.', note=COMMON_NOTE + ' The liveness half (eventually drained under a fair schedule) is not checked; DrainedOK is a safety statement about drained states.'),
+                     'logs being rebuilt from the events the real chains emit, and the full projected state of both chains compared. The liveness half is a TLC temporal check (MC_BridgeLive: under weak fairness of relay, propose, '
+                     'time and claim the system is eventually drained with escrow = L2 supply; without fairness TLC finds the expected lasso), bound to the code by E3: every recorded two-chain history (Trace_Bridge.tla) ends with the '
+                     'canonical fair schedule (relay all, propose, wait, claim all) executed on the real chains, after which Drained and Solvency must hold.', note=COMMON_NOTE + ' Liveness is checked on the specification and exercised on the code for one canonical fair schedule per recorded history, not for every fair schedule.'),
     'C06': dict(text='Relay model: three/four pending deposits, two executors and a stranger, every sequence (incl. 0, replays, gaps, ahead) offered in every state, interleaved with a '
                      'withdrawal and an executor rotation: InOrderOnce, NoopIsNoop, AheadRejected hold on every transition (TLC) and every transition is replayed on the real keeper; '
-                     'NextL1Sequence is read through the gRPC query.', note=COMMON_NOTE),
+                     'NextL1Sequence is read through the gRPC query.' + E3, note=COMMON_NOTE),
     'C07': dict(text='Deposit model: recipients {valid, malformed, blocked module account} x amounts {0,2} x hook payloads {none, undecodable, badly signed, well signed ok / failing / '
                      'failing at message 2 / panicking handler / signer without funds} x hook gas {ample, below signature cost, zero} x injected error or panic in MintCoins / '
                      'SendCoinsFromModuleToAccount: Outcome (credited xor exactly one refund withdrawal under the next L2 sequence), HookContained (only the signer sequence is consumed) and '
-                     'DepositNeverStalls hold; each case runs on the real keeper with real signed hook transactions and a fault-injecting bank keeper wrapper.',
-                note=COMMON_NOTE + ' The hook gas bound itself (spends at most the configured hook gas) is not measured yet.'),
+                     'DepositNeverStalls hold; each case runs on the real keeper with real signed hook transactions and a fault-injecting bank keeper wrapper.' + E3,
+                note=COMMON_NOTE + ' The hook gas bound is observed by measuring the gas the hook consumed on the real keeper (hookGasOK in the response), not by modelling gas costs.'),
     'C09': dict(text='Withdrawals of bridged / native / unknown denoms for amounts 0, within and beyond balance, interleaved with credited and refunded deposits and a deposit naming another '
                      'base denom for an existing L2 denom: WithdrawExact, PairImmutable, gap-free shared L2 sequence, per-step bridged supply delta and supply = sum of balances hold and are '
-                     'replayed on the real keeper (bank supply and BaseDenom query included in the projected state).', note=COMMON_NOTE),
+                     'replayed on the real keeper (bank supply and BaseDenom query included in the projected state).' + E3, note=COMMON_NOTE),
     'C12': dict(text='Every permissioned L1 message x signers {gov, proposer, challenger, their replacements, stranger} in every state reachable by role rotations; every L2 message '
                      '(deposit finalization, bridge info with every single-field re-pointing, params, fee pool, batched execution with good / foreign-signer / failing inner messages) x '
                      'signers {authority, admin, executors, stranger} across executor and admin rotations; validator messages x {authority, stranger}: AuthOnlyIf + sufficiency, '
-                     'BindingImmutable, ExecAllOrNothing hold (TLC) and every transition is replayed on the real keepers.', note=COMMON_NOTE),
+                     'BindingImmutable, ExecAllOrNothing hold (TLC) and every transition is replayed on the real keepers.' + E3, note=COMMON_NOTE),
     'C13': dict(text='Validator-set model from six genesis sets (incl. zero-power and duplicate-key entries, over-cap sets rejected), add / remove / max-validators / retention changes in '
                      'every grouping over blocks, genesis round trips between blocks: Good (engine set = positive-power validators = last powers, indexes one-to-one, capacity, no halt) is '
                      'inductive, BatchWellFormed and HistoryExact hold; every transition runs on the real keeper through BeginBlocker / EndBlocker and every returned batch is applied to a '
-                     'real CometBFT ValidatorSet.', note=COMMON_NOTE + ' Histories that would leave the consensus engine with an empty set are outside the model (the statement gives no acceptance criterion for them).'),
+                     'real CometBFT ValidatorSet.' + E3, note=COMMON_NOTE + ' Histories that would leave the consensus engine with an empty set are outside the model (the statement gives no acceptance criterion for them).'),
     'C14': dict(text='Plans with new / existing operator and new / used consensus key, registered for the current or next heights, over the validator-set states of the plan model: PlanApplied, '
                      'OnlyAtHeight, RegisterRejects hold for plans that reuse neither an operator nor a key; the two reuse cases are open known findings whose signature is computed by '
-                     'the specification AND re-evaluated on the real chain after EndBlocker (KNOWN-FINDING lines); every transition is replayed on the real keeper and CometBFT set.',
+                     'the specification AND re-evaluated on the real chain after EndBlocker (KNOWN-FINDING lines); every transition is replayed on the real keeper and CometBFT set; plans over one and two executors.' + E3,
                 note=COMMON_NOTE),
     'C15': dict(text='Oracle.tla transcribes UpdateOracle (executor, enabled flag, height vs recorded set, per-vote checks in code order, cumulative-power quorum, decoding, per-pair '
                      'stake-weighted median over each validator\'s last reporting vote with the 0.667 threshold, timestamp pair required, strictly increasing timestamps) and the host-set '
-                     'refresh; QuorumSound is stated independently on distinct validly-signing known validators. Bounded model: 3 known validators (powers 1,1,1 and 2,1,1) + 1 unknown, '
+                     'refresh; QuorumSound is stated independently on distinct validly-signing known validators. Bounded model: 3 known validators (powers 1,1,1 and 2,1,1), a 5-validator set, a same-size set with one member replaced, + 1 unknown, '
                      'per-validator vote kinds x duplicated / unknown / garbage extras, 7 signature kinds, set refreshes from the right / wrong / empty client at higher / lower heights; '
                      'every vote list is built with real ed25519 keys and signatures and submitted through the real MsgUpdateOracle.', note=COMMON_NOTE + ' The connect oracle keeper, vote aggregator and codecs are the real ones and trusted.'),
     'C16': dict(text='A genesis round trip (export -> JSON -> ValidateGenesis -> InitGenesis on a fresh instance -> second export compared) is an event in the L1 ledger, L2 deposit and '
                      'validator-set models, offered in every reachable state; the walk CONTINUES on the re-imported chain, so every later message and query of the model is answered by the '
-                     're-imported chain and compared with the specification, and the L2 import feeds InitGenesis updates to a fresh CometBFT set.', note=COMMON_NOTE),
+                     're-imported chain and compared with the specification, and the L2 import feeds InitGenesis updates to a fresh CometBFT set.' + E3, note=COMMON_NOTE),
     'C17': dict(text='Formats.tla defines leaf, node, root-from-proof, output root, L2 denom and escrow address as a term algebra and the tree / proof rule; TLC emits one term per operator and '
                      'structural case (node: <,=,>,adjacent; proofs of length 0..6; trees of 1..9 leaves x every position); a generic evaluator that knows only be64/str/cat/sha3/sha256/hex '
                      'fills the holes with seeded full-range values and the bytes are compared with the chain functions and with pinned vectors; SliceMem.tla models slice headers and append, '
